@@ -314,6 +314,7 @@ def parseReq (j : Json) : Except String Json := do
       match Cls.ofPyName (← getStr j "cls") with
       | none => throw "unknown class"
       | some c => pure (parseAs c d)
+    else if how == "derived" then pure (parse d)
     else pure (parseTop d (← getBool j "root") (← getBool j "sr"))
   pure (exceptToJson classTree r)
 
